@@ -20,7 +20,7 @@ CFG = dict(
          "at least 3 (store) / 5 (database) steps; distinct by the full step list",
     trusted_base=COMMON_TB + [
         "modelled: embedded/store ReplicateTx (framing of Store/Codec.v, OngoingTx.set limits, precommit with an expected "
-        "header incl. the pooled tx holder, performPrecommit, mayCommit), AllowCommitUpto, DiscardPrecommittedTxsSince, "
+        "header, performPrecommit, mayCommit), AllowCommitUpto, DiscardPrecommittedTxsSince, "
         "Close/Open reload of the precommitted backlog, TxHeader.Alh/innerHash, entry digests, htree/aht roots as the "
         "reference Merkle hash (tied by C08); pkg/database ExportTxByID validation, mayUpdateReplicaState, replica "
         "AllowCommitUpto. NOT modelled: pkg/replication's gRPC loop (only as the schedules it can produce), stream "
@@ -30,18 +30,14 @@ CFG = dict(
         "a ReplicateTx call that waits for its predecessor (future id) is run under a 250 ms context and modelled as an "
         "error without effect; concurrent batches are compared by their final state only (and only while no discard "
         "happened since the last Open: DiscardPrecommittedTxsSince does not recede the in-memory precommit watcher)",
-        "the AHT is modelled as a function of the chain. It is not when a replica that once held a record that is not "
-        "the primary's (an accepted alteration, or tx 1 with a stale BlRoot) is reopened after a discard: the tx log "
-        "reload may take the older record back while the AHT files keep the leaf appended last (ResetSize does not shrink "
-        "them) -- the replica then answers 'invalid blRoot' for ever. The harness ends a case at the first reopening after "
-        "such an acceptance (and at a reopening with embedded values and nothing committed, where the mis-parsed values "
-        "prefix leaves an unmodelled BlRoot in the tx holder); likewise at a reopening after records were appended behind "
-        "discarded ones (which of the left-overs behind the logical end of the tx log survive later appends depends on "
-        "byte sizes; the model drops them at the next append), and tx 1 is not re-precommitted after a concurrent batch "
-        "(which pooled tx holder it would get is a matter of goroutine scheduling)",
+        "the AHT is modelled as a function of the chain (at Open it is reset to the committed transactions and rebuilt "
+        "from the reloaded ones, /repo 2077e08). Records left behind the logical end of the tx log by a reopening are "
+        "dropped by the model at the next append, whereas in the file an identical re-delivery overwrites its twin exactly "
+        "and the records behind it come back at the next reopening: the harness ends a case at a reopening that follows an "
+        "accepted delivery behind discarded records",
         "the _refuted witnesses (coq/Repl/Witness.v) use the executable SHA-256 over Coq's primitive 63-bit integers "
         "(kernel primitives PrimInt63.*, listed by Print Assumptions); they are compiled with Properties/C07.v but the "
-        "seven theorems restated there are closed under the global context",
+        "six theorems restated there are closed under the global context",
         "SHA-256 of the model = crypto/sha256: checked by every Alh comparison of this run (and by C08's cases)",
     ],
     assumptions=[
@@ -49,8 +45,8 @@ CFG = dict(
         "digests, value hash = H(value), Alh = TxHeader.Alh, widths within the encoders' limits)",
         "altered_rejected_partial additionally assumes the primary's header is chained to and linked with its own history "
         "(PrevAlh, BlRoot) and concludes `... or Collision H` (no collision-resistance axiom)",
-        "replica_prefix is stated for c_stale = false (tx holder cleared: the proposed repair) and as _partial (no "
-        "discards) for the code as found; the harness determines c_stale by a probe of /repo on every run",
+        "the directed schedule that failed before /repo 7c27871 (deliver 1, deliver 2, discard since 1, deliver 1: stale "
+        "BlRoot of the pooled tx holder) runs at the start of every check; a recurrence is a violation",
     ],
 )
 
